@@ -1,6 +1,7 @@
 package real
 
 import (
+	"reflect"
 	"fmt"
 	"sort"
 	"strings"
@@ -60,6 +61,12 @@ func (r *Runner) Digest() []string {
 		add("D ent.po %d %s %s %d %d %d %s", po.Id, sym.TokString(po.Purchaser), fmtCoin(po.Amount), int32(po.Status),
 			po.RaiseTime, po.CompletionTime, script.List(ds))
 	}
+	// a listed entity is the entity a point read returns (C18: listings do not alias one entity with another)
+	for _, po := range pos {
+		if p, ok := ek.GetPurchaseOrder(ctx, po.Id); !ok || !reflect.DeepEqual(p, po) {
+			add("D ent.alias %d", po.Id)
+		}
+	}
 	add("D ent.rq %s", ids(ek.GetAllRaisedPurchaseOrders(ctx)))
 	add("D ent.aq %s", ids(ek.GetAllAcceptedPurchaseOrders(ctx)))
 	var wl []string
@@ -104,6 +111,11 @@ func (r *Runner) Digest() []string {
 			tok(c.Genesis), tok(c.Type), c.RegTime, c.Lastblock, c.NumBlocks, c.LowestHeight, limit)
 	}
 	for _, c := range chains {
+		if p, ok := wk.GetWrkChain(ctx, c.WrkchainId); !ok || !reflect.DeepEqual(p, c) {
+			add("D wrk.alias %d", c.WrkchainId)
+		}
+	}
+	for _, c := range chains {
 		blocks := wk.GetAllWrkChainBlockHashes(ctx, c.WrkchainId)
 		sort.SliceStable(blocks, func(i, j int) bool { return blocks[i].Height < blocks[j].Height })
 		for _, b := range blocks {
@@ -129,6 +141,11 @@ func (r *Runner) Digest() []string {
 			b.RegTime, b.LastTimestampId, b.FirstIdInState, b.NumInState, limit)
 	}
 	for _, b := range beacons {
+		if p, ok := bk.GetBeacon(ctx, b.BeaconId); !ok || !reflect.DeepEqual(p, b) {
+			add("D bcn.alias %d", b.BeaconId)
+		}
+	}
+	for _, b := range beacons {
 		tss := bk.GetAllBeaconTimestamps(ctx, b.BeaconId)
 		sort.SliceStable(tss, func(i, j int) bool { return tss[i].TimestampId < tss[j].TimestampId })
 		for _, t := range tss {
@@ -138,7 +155,10 @@ func (r *Runner) Digest() []string {
 
 	// ---- stream
 	add("D str.params %s", a.StreamKeeper.GetParams(ctx).ValidatorFee.BigInt().String())
-	type srow struct{ r, s, line string }
+	type srow struct {
+		r, s, line string
+		alias      bool
+	}
 	var streams []srow
 	a.StreamKeeper.IterateAllStreams(ctx, func(recv, send sdk.AccAddress, s streamtypes.Stream) bool {
 		c := 0
@@ -146,6 +166,10 @@ func (r *Runner) Digest() []string {
 			c = 1
 		}
 		row := srow{r: sym.TokBytes(recv), s: sym.TokBytes(send)}
+		if p, ok := a.StreamKeeper.GetStream(ctx, recv, send); !ok || !p.Deposit.IsEqual(s.Deposit) || p.FlowRate != s.FlowRate ||
+			!p.LastOutflowTime.Equal(s.LastOutflowTime) || !p.DepositZeroTime.Equal(s.DepositZeroTime) || p.Cancellable != s.Cancellable {
+			row.alias = true
+		}
 		row.line = fmt.Sprintf("D str.stream %s %s %s %d %s %s %d", row.r, row.s, fmtCoin(s.Deposit), s.FlowRate,
 			FmtTime(s.LastOutflowTime), FmtTime(s.DepositZeroTime), c)
 		streams = append(streams, row)
@@ -159,6 +183,9 @@ func (r *Runner) Digest() []string {
 	})
 	for _, s := range streams {
 		out = append(out, s.line)
+		if s.alias {
+			add("D str.alias %s %s", s.r, s.s)
+		}
 	}
 
 	// ---- bank / auth
